@@ -41,7 +41,7 @@ class Frame:
 
 PURE_METHODS = {"get", "items", "keys", "values", "copy", "count", "value", "is_solution_valid", "index"}
 
-RLIMIT = 40_000_000
+RLIMIT = 3_000_000
 
 
 class Engine:
@@ -72,6 +72,8 @@ class Engine:
         self.call_stack = []
         self.frame_writes = None
         self.store_eqs = []
+        self.apply_w_stack = []
+        self.loop_pre = []
         self._lists = None
         self.gen_state = None
         self._objs = {}
@@ -112,7 +114,7 @@ class Engine:
         self.pc.append(f)
         self.solver.add(f)
 
-    def _check(self, *extra):
+    def _check(self, *extra, portfolio=False):
         self._sync()
         t0 = time.time()
         self.solver.push()
@@ -126,9 +128,43 @@ class Engine:
             except z3.Z3Exception:
                 model = None
         self.solver.pop()
+        self.last_backend = "z3-" + z3.get_version_string()
+        if r == z3.unknown and portfolio:
+            r, model = self._portfolio(extra)
         self.stats["solver_calls"] += 1
         self.stats["solver_time"] += time.time() - t0
         return r, model
+
+    def _portfolio(self, extra):
+        """second opinions for a query the incremental solver left open: a fresh one-shot z3 solver (different
+        strategy), then the z3 4.8 and cvc5 command-line solvers on the SMT-LIB text"""
+        s = z3.Solver()
+        for a_ in self.solver.assertions():
+            s.add(a_)
+        for e in extra:
+            s.add(e)
+        import subprocess
+        import tempfile
+        text = s.to_smt2()
+        import shutil
+        z3new = shutil.which("z3-new") or "/usr/bin/z3"
+        # resource limits (deterministic) decide; the wall-clock limits are only a safety net
+        for name, cmd in (("z3-5.1-cli(one-shot)", [z3new, "rlimit=40000000", "-T:120"]),
+                          ("cvc5-cli", ["/usr/bin/cvc5", "--rlimit=3000000", "--tlimit=120000"])):
+            try:
+                with tempfile.NamedTemporaryFile("w", suffix=".smt2", delete=True) as f:
+                    f.write(text)
+                    f.flush()
+                    out = subprocess.run(cmd + [f.name], capture_output=True, text=True, timeout=130).stdout.strip().split("\n")[0]
+            except Exception:
+                continue
+            if out == "unsat":
+                self.last_backend = name
+                return z3.unsat, None
+            if out == "sat":
+                self.last_backend = name
+                return z3.sat, None
+        return z3.unknown, None
 
     def feasible(self, f):
         r, _ = self._check(f)
@@ -173,7 +209,7 @@ class Engine:
                                  "backend": "trivial", "model": None})
             return st == "discharged"
         t0 = time.time()
-        r, model = self._check(z3.Not(goal))
+        r, model = self._check(z3.Not(goal), portfolio=True)
         dt = time.time() - t0
         if r == z3.unsat:
             st = "discharged"
@@ -181,7 +217,7 @@ class Engine:
             st = "refuted"
         else:
             st = "open"
-        rec = {"kind": kind, "name": name, "status": st, "note": note, "time_s": round(dt, 4), "backend": "z3-" + z3.get_version_string(),
+        rec = {"kind": kind, "name": name, "status": st, "note": note, "time_s": round(dt, 4), "backend": getattr(self, "last_backend", "z3"),
                "model": None}
         if st != "discharged":
             rec["model"] = self._model_summary(model) if model is not None else None
@@ -360,6 +396,10 @@ class Engine:
 
     # ------------------------------------------------------------------ arithmetic
     def binop(self, op, a, b):
+        if isinstance(op, ast.Mod) and isinstance(a, str):
+            if a == "__a%d" and is_intlike(b):
+                return SV(self.facts.anc_label(zint(b)), "label")
+            raise Unsupported("string formatting")
         if isinstance(op, ast.Add):
             if isinstance(a, tuple) and isinstance(b, tuple):
                 return a + b
@@ -1086,6 +1126,9 @@ class Engine:
             raise Unsupported("symbolic loop over %s" % type(it).__name__)
         inv_src = spec["invariant"]
         gname = "visited%d" % ordinal
+        if not hasattr(self, "loop_pre") or self.loop_pre is None:
+            self.loop_pre = []
+        self.loop_pre.append((dict(fr.locals), self.snapshot(list(fr.locals.values()))))
 
         def inv(ghost):
             env = dict(fr.locals)
@@ -1225,6 +1268,7 @@ class Engine:
             gN = SV(z3.If(coll[1] >= coll[0], coll[1], coll[0]), "int")
         fr.locals[gname] = gN
         self.assume(inv(gN))
+        self.loop_pre.pop()
 
     def _over_results(self, it):
         """is this generator/filter/map drawn from a list of results?"""
@@ -1624,6 +1668,19 @@ class Engine:
                 obj = self.eval(n.args[1], fr)
                 return SuperRef(obj, clsv.cls)
             return SuperRef(fr.self_obj, fr.defining_cls)
+        if self.spec and isinstance(n.func, ast.Name) and n.func.id == "pre" and getattr(self, "loop_pre", None):
+            # value of an expression at the entry of the innermost invariant loop
+            plocals, psnap = self.loop_pre[-1]
+            saved = self.old
+            self.old = psnap
+            try:
+                pf = Frame(fr.closure, dict(plocals), fr.self_obj, fr.defining_cls)
+                for k, v in fr.locals.items():
+                    if isinstance(v, Builtin) and v.name.startswith("spec."):
+                        pf.locals.setdefault(k, v)
+                return self.eval(n.args[0], pf)
+            finally:
+                self.old = saved
         if self.spec and isinstance(n.func, ast.Name) and n.func.id == "old":
             saved = self.old
             st = getattr(self, "entry_snapshot_stack", None)
